@@ -496,6 +496,12 @@ example : ∀ xs, asTuple (.tuple [.cell (.int 1), .list [.cell (.int 2)]]) ≠ 
 `runEvents w evs` is the task tree of `await waiter(w)` after the completion events `evs`; `.result` is what
 the awaiting caller has received (`none`: still suspended).  `res i` is the result of awaitable `i`. -/
 
+/-- **Commutation of slot writes**: completion events of two different awaitables commute on every task tree
+(reachable or not). -/
+theorem complete_comm (i j : Nat) (a b : Val) (hij : i ≠ j) (t : Task) :
+    complete i a (complete j b t) = complete j b (complete i a t) :=
+  complete_comm_aux i j a b hij _ t (Nat.le_refl _)
+
 /-- **Confluence.** The whole task tree — not only the final answer — depends only on the *set* of awaitables
 that have completed so far, not on the order (or repetition) of the completion events. -/
 theorem waiter_order_irrelevant (w : W) (res : Nat → Val) (σ τ : List Nat) (h : ∀ i, i ∈ σ ↔ i ∈ τ) :
